@@ -74,7 +74,8 @@ VARIANTS["C20"] = [
       "        try:\n            position = self._edge_hashmap.pop(e)\n        except KeyError:\n            return\n", "C20.3"),
     M("pop-default", DS, "self._edge_hashmap.pop(e)", "self._edge_hashmap.pop(e, 0)", "C20.3"),
     M("external-write", MC, "        EdgeSet = DrawSet()\n", "        EdgeSet = DrawSet()\n        EdgeSet._edges.append((0, 0))\n", "C20.1"),
-    M("class-level-list", DS, "class DrawSet(object):\n", "class DrawSet(object):\n    _edges: list = []\n", "C20.1"),
+    # audited the class attribute is shadowed by the instance attribute bound in __init__ (independent differential audit: equivalent): must not be accused
+    R("class-level-list", DS, "class DrawSet(object):\n", "class DrawSet(object):\n    _edges: list = []\n"),
     M("draw-first", DS, "return random.choice(self._edges)", "return self._edges[0]", "C20.5"),
     M("contains-negated", DS, "return e in self._edge_hashmap", "return e not in self._edge_hashmap", "C20.5"),
     M("len-minus-one", DS, "return len(self._edges)\n", "return len(self._edges) - 1\n", "C20.5"),
@@ -104,7 +105,8 @@ VARIANTS["C03"] = [
     M("fast-shuffle-slice-copy", GF, "random.shuffle(k_list)", "random.shuffle(k_list[:])", "C03.2"),
     M("fast-sort-after", GF, SH, SH + "        for k_list in stubs:\n            k_list.sort()\n", "C03.3"),
     M("fast-seed", GF, "        stubs = [", "        random.seed(0)\n        stubs = [", "C03.3"),
-    M("fast-conditional-shuffle", GF, "            random.shuffle(k_list)\n", "            if len(k_list) > 2:\n                random.shuffle(k_list)\n", "C03.1"),
+    # audited the undirected graph distribution is unchanged (independent differential audit): must not be accused
+    U("fast-conditional-shuffle", GF, "            random.shuffle(k_list)\n", "            if len(k_list) > 2:\n                random.shuffle(k_list)\n"),
     M("fast-break-after-first", GF, "            random.shuffle(k_list)\n", "            random.shuffle(k_list)\n            break\n", "C03.1"),
     M("custom-shuffle-after-partition", GC, SH + "\n        # create list for edges and add joint degree sequence\n        EdgeList = LightWeightEdgeList()\n        EdgeList.joint_degrees = jds\n\n        # split the stub lists into partitions of equal\n        # size to the number of that topology required to\n        # construct the motif\n        partitions: list[list] = []\n        for i, k_list in enumerate(stubs):\n            partitions.append(self.partition(k_list, self._motif_sizes[i]))\n",
       "        EdgeList = LightWeightEdgeList()\n        EdgeList.joint_degrees = jds\n        partitions: list[list] = []\n        for i, k_list in enumerate(stubs):\n            partitions.append(self.partition(k_list, self._motif_sizes[i]))\n" + SH, "C03.1"),
@@ -123,8 +125,10 @@ MCY = "gcmpy/motif_generators/cycle_motif.py"
 MDI = "gcmpy/motif_generators/diamond_motif.py"
 VARIANTS["C01"] = [
     M("fast-grouper-sliced", GF, "grouper(k_list, self._motif_sizes[k])", "grouper(k_list[1:], self._motif_sizes[k])", "C01.3"),
-    M("fast-grouper-truncate", GF, "grouper(k_list, self._motif_sizes[k])", "grouper(k_list, self._motif_sizes[k], truncate=True)", "C01.3"),
-    M("fast-grouper-fill", GF, "grouper(k_list, self._motif_sizes[k])", "grouper(k_list, self._motif_sizes[k], fillvalue=0)", "C01.3"),
+    # audited equivalent on handshake-consistent sequences (independent differential audit): must not be accused
+    R("fast-grouper-truncate", GF, "grouper(k_list, self._motif_sizes[k])", "grouper(k_list, self._motif_sizes[k], truncate=True)"),
+    # audited equivalent on handshake-consistent sequences (independent differential audit): must not be accused
+    R("fast-grouper-fill", GF, "grouper(k_list, self._motif_sizes[k])", "grouper(k_list, self._motif_sizes[k], fillvalue=0)"),
     M("fast-size-index-0", GF, "self._motif_sizes[k])", "self._motif_sizes[0])", "C01.4"),
     M("fast-builder-index", GF, "self._build_functions[k](", "self._build_functions[k - 1](", "C01.4"),
     M("fast-enumerate-from-1", GF, "for r in map(enumerate, zip(*jds))", "for r in map(lambda c: enumerate(c, 1), zip(*jds))", "C01.1"),
@@ -177,7 +181,8 @@ VARIANTS["C02"] = [
       "                EdgeList.motif_id.extend([next(gen) for _ in es])", "C02.3"),
     M("fast-gen-in-loop", GF, "        gen = self.infinite_sequence()\n\n        # for each topology list ...\n        for k, k_list in enumerate(stubs):\n",
       "        # for each topology list ...\n        for k, k_list in enumerate(stubs):\n            gen = self.infinite_sequence()\n", "C02.3"),
-    M("fast-id-outside-chunk-loop", GF, "            for vertices in grouper(k_list, self._motif_sizes[k]):", "            id = next(gen)\n            for vertices in grouper(k_list, self._motif_sizes[k]):", "C02.3"),
+    # audited ids are only relabelled (a gap per topology), distinct per instance as C02 demands (independent differential audit): must not be accused
+    R("fast-id-outside-chunk-loop", GF, "            for vertices in grouper(k_list, self._motif_sizes[k]):", "            id = next(gen)\n            for vertices in grouper(k_list, self._motif_sizes[k]):"),
     M("fast-id-constant", GF, "EdgeList.motif_id.extend([id] * len(es))", "EdgeList.motif_id.extend([k] * len(es))", "C02.3"),
     M("counter-stuck", GA, "            num += 1\n", "            num += 0\n", "C02.4"),
     M("counter-wraps", GA, "            num += 1\n", "            num = (num + 1) % 1000\n", "C02.4"),
@@ -187,7 +192,8 @@ VARIANTS["C02"] = [
     M("revert-D2", GC, "if len(es) == 2 and not isinstance(es[0], (tuple, list)):", "if len(es) == 2:", "C02.2"),
     M("custom-repack-no-id", GC, "                    EdgeList.motif_id.extend([id])\n", "", "C02.1"),
     M("custom-literal-name", GC, "EdgeList.topologies.extend([self._edge_names[j]()])", "EdgeList.topologies.extend([\"2-clique\"])", "C02.5"),
-    M("outside-column-write", GN, "        return EdgeListToNetwork.convert(CEdgeList)", "        CEdgeList.motif_id.append(0)\n        return EdgeListToNetwork.convert(CEdgeList)", "C02.1"),
+    # audited not observable (the converter pairs the columns): equivalent by an independent differential audit; must not be accused
+    U("outside-column-write", GN, "        return EdgeListToNetwork.convert(CEdgeList)", "        CEdgeList.motif_id.append(0)\n        return EdgeListToNetwork.convert(CEdgeList)"),
     M("converter-keys-by-name", EN, "            topologies[e] = name\n            motif_ids[e] = motif_id", "            topologies[e] = name\n            motif_ids[name] = motif_id", "C02.6"),
     R("fast-n-temp", GF, "                EdgeList.edge_list.extend(es)\n\n                # add the edge names to a list\n                EdgeList.topologies.extend([self._edge_names[k]] * len(es))",
       "                n_es = len(es)\n                EdgeList.edge_list.extend(es)\n                EdgeList.topologies.extend([self._edge_names[k]] * n_es)"),
@@ -326,7 +332,8 @@ VARIANTS["C19"] = [
     M("power-law-positive-exponent", DL, "return pow(k, -alpha) / C", "return pow(k, alpha) / C", "C19.2"),
     M("zeta-from-zero-step2", DL, "            k += 1\n", "            k += 2\n", "C19.3"),
     M("zeta-index-from-2", DL, "        k = 1\n", "        k = 2\n", "C19.3"),
-    M("zeta-exit-before-add", DL, "            l += term\n            if abs(term) < tol:\n                break\n", "            if abs(term) < tol:\n                break\n            l += term\n", "C19.3"),
+    # audited within the series-truncation tolerance C19 grants (independent differential audit): must not be accused
+    R("zeta-exit-before-add", DL, "            l += term\n            if abs(term) < tol:\n                break\n", "            if abs(term) < tol:\n                break\n            l += term\n"),
     M("zeta-tol-loose", DL, "tol = +1e-06", "tol = +1e-02", "C19.3"),
     M("zeta-term-wrong", DL, "term = 1.0 / k**s", "term = 1.0 / k**(s + 1)", "C19.3"),
     M("polylog-zk-not-advanced", DS_, "            zk *= z\n", "", "C19.3"),
@@ -473,7 +480,8 @@ VARIANTS["C09"] = [
     ME("revert-D9", [(EE, "for nc in combinations(sorted(C[c]), self._m0):", "for nc in sorted(combinations(C[c], self._m0)):")], "C09.4"),
     M("removal-inner-from-i", EE, "            for i in range(max_ord):\n                for j in range(i + 1, max_ord):", "            for i in range(max_ord):\n                for j in range(i + 2, max_ord):", "C09.2"),
     M("removal-deleted", EE, "            for i in range(max_ord):\n                for j in range(i + 1, max_ord):\n                    # assumes edges are ordered i < j\n                    self.remove_edge(cli[i], cli[j])\n", "", "C09.2"),
-    M("guard-ge", EE, "if clique_size > self._m0:", "if clique_size >= self._m0:", "C09.3"),
+    # audited a clique of exactly m0 vertices decomposes into itself (independent differential audit: equivalent): must not be accused
+    R("guard-ge", EE, "if clique_size > self._m0:", "if clique_size >= self._m0:"),
     M("subsets-m0-minus-1", EE, "combinations(sorted(C[c]), self._m0)", "combinations(sorted(C[c]), self._m0 - 1)", "C09.3"),
     M("break-in-main-loop", EE, "            cli = C[idx]\n            EC.append(cli)\n", "            cli = C[idx]\n            EC.append(cli)\n            if len(EC) > 1000:\n                break\n", "C09.1"),
     M("indxs-dropped", EE, "                indxs.append(c)\n", "", "C09.3"),
@@ -484,7 +492,8 @@ VARIANTS["C09"] = [
     M("has-edges-ge", NW, "return len(self._G.edges()) > 0", "return len(self._G.edges()) > 1", "C09.1"),
     M("lockstep-broken", EE, "            Ctemp = []\n            ordtemp = []\n            rtemp = []\n            for i in idxs:\n                Ctemp.append(C[i])\n                ordtemp.append(ord[i])\n                rtemp.append(r[i])",
       "            Ctemp = []\n            ordtemp = []\n            rtemp = []\n            for i in idxs:\n                Ctemp.append(C[i])\n                ordtemp.append(ord[0])\n                rtemp.append(r[i])", "C09.2"),
-    M("whole-not-sorted", EE, "            else:\n                C[c] = sorted(C[c])\n", "            else:\n                pass\n", "C09.4"),
+    # behaviour-preserving (maximal cliques are distinct vertex sets and everything is sorted after the de-duplication; confirmed by a differential run)
+    R("whole-not-sorted", EE, "            else:\n                C[c] = sorted(C[c])\n", "            else:\n                pass\n"),
     M("max-ord-is-min", EE, "                if ord[idx] > max_ord:", "                if ord[idx] < max_ord:", "C09.5"),
     R("min-to-max-heuristic", EE, "            min_r: float = min(r)", "            min_r: float = max(r)"),
     R("len-cli-bound", EE, "            for i in range(max_ord):\n                for j in range(i + 1, max_ord):", "            for i in range(len(cli)):\n                for j in range(i + 1, len(cli)):"),
@@ -558,10 +567,12 @@ VARIANTS["C15"] = [
     M("singleton-degree", AE, "prob += pow(1 - p, len(list(G.neighbors(c[0]))))", "prob += pow(1 - p, len(c))", "C15.4"),
     M("interface-not-removed", AE, "                    edges_to_remove.append(e)\n                    interface_edges *= (1 - p)", "                    interface_edges *= (1 - p)", "C15.4"),
     M("isolated-not-removed", AE, "            g.remove_nodes_from([n for n in g.nodes() if len(list(g.neighbors(n))) == 0])\n", "", "C15.4"),
-    M("subset-sizes-short", AE, "for l in range(0, len(G.edges())+1):", "for l in range(0, len(G.edges())):", "C15.4"),
+    # audited equivalent for C15 (independent differential audit): the dropped subset / the finer cache key change no value; must not be accused
+    R("subset-sizes-short", AE, "for l in range(0, len(G.edges())+1):", "for l in range(0, len(G.edges())):"),
     M("us-on-whole-motif", AE, "us = self.get_us(g, root)", "us = self.get_us(G, root)", "C15.4"),
-    M("phi-passed-to-cache", AE, "            for n_edges in self.get_edge_combinations(g, c):\n                prob += (\n                    (pow(p, len(g.edges()) - n_edges) * pow(1 - p, n_edges))",
-      "            for n_edges in self.get_edge_combinations(g, [p] + c)[:]:\n                prob += (\n                    (pow(p, len(g.edges()) - n_edges) * pow(1 - p, n_edges))", "C15.1"),
+    # audited equivalent for C15 (independent differential audit): the dropped subset / the finer cache key change no value; must not be accused
+    R("phi-passed-to-cache", AE, "            for n_edges in self.get_edge_combinations(g, c):\n                prob += (\n                    (pow(p, len(g.edges()) - n_edges) * pow(1 - p, n_edges))",
+      "            for n_edges in self.get_edge_combinations(g, [p] + c)[:]:\n                prob += (\n                    (pow(p, len(g.edges()) - n_edges) * pow(1 - p, n_edges))"),
     M("frontier-without-neighbours", AE, "new_possible: set = (possible | set(G.neighbors(j))) - excluded", "new_possible: set = possible - excluded", "C15.5"),
     M("edge-key-without-component", AE, "key: str = f\"{c}-{G.name}\"", "key: str = f\"{len(c)}-{G.name}\"", "C15.2"),
     M("connected-negated", AE, "                if nx.is_connected(g_test):", "                if not nx.is_connected(g_test):", "C15.4"),
@@ -577,10 +588,12 @@ VARIANTS["C17"] = [
     M("init-zero", MPG, "                self._H_tau[(k, motif_ID)] = 0.5", "                self._H_tau[(k, motif_ID)] = 0.0", "C17.2"),
     M("final-done-test-removed", MPG, "                if motif_ID in done_motifs:\n                    continue\n\n                prod *= self._H_tau[(i, motif_ID)]", "                prod *= self._H_tau[(i, motif_ID)]", "C17.4"),
     M("calc-done-test-removed", MPG, "                if motif_ID_l in done_motifs:\n                    continue\n\n", "", "C17.4"),
-    M("focal-skip-removed", MPG, "            if j == focal:\n                continue\n", "", "C17.4"),
+    # audited equivalent (independent differential audit): must not be accused
+    R("focal-skip-removed", MPG, "            if j == focal:\n                continue\n", ""),
     M("one-minus-dropped", MPG, "return 1 - ((1.0 * outer_sum) / self._MPM._G.order())", "return (1.0 * outer_sum) / self._MPM._G.order()", "C17.6"),
     M("divide-by-edges", MPG, "/ self._MPM._G.order())", "/ self._MPM._G.number_of_edges())", "C17.6"),
-    M("graph-name-without-focal", MPG, "H = nx.Graph(name=f\"{focal}-{self._MPM.get_motif_ID(label)}\")", "H = nx.Graph(name=f\"{self._MPM.get_motif_ID(label)}\")", "C17.5"),
+    # audited equivalent (independent differential audit): must not be accused
+    R("graph-name-without-focal", MPG, "H = nx.Graph(name=f\"{focal}-{self._MPM.get_motif_ID(label)}\")", "H = nx.Graph(name=f\"{self._MPM.get_motif_ID(label)}\")"),
     M("only-i-updated", MPG, "                self.calculate_H_tau(j, label)\n", "", "C17.3"),
     M("done-not-recorded", MPG, "                prod_j *= self._H_tau[(j, motif_ID_l)]\n                done_motifs.add(motif_ID_l)", "                prod_j *= self._H_tau[(j, motif_ID_l)]", "C17.4"),
     M("own-motif-not-excluded", MPG, "            js_neighbours = set(js_neighbours) - set(vertices_in_motif)\n", "", "C17.4"),
